@@ -1,0 +1,144 @@
+//go:build verif
+
+// Contracts for package libtime, read by /verif/bin/govc (see /verif/DESIGN.md).
+// Compiled only under the build tag `verif`; comments only.
+
+package libtime
+
+//@ pred args1(args) = args != nil && len(args.Cells) == 1 && args.Cells[0] != nil
+//@ pred args2(args) = args != nil && len(args.Cells) == 2 && args.Cells[0] != nil && args.Cells[1] != nil
+//@ pred isTime(v) = v.Type == lisp.LNative && typeis(v.Native, time.Time)
+//@ pred isDur(v)  = v.Type == lisp.LNative && typeis(v.Native, time.Duration)
+//@ pred envOK(env) = env != nil && env.Runtime != nil && env.Runtime.Stack != nil
+//@ pred isErr(v) = v != nil && v.Type == lisp.LError
+
+//@ functype context.Context.Done
+//@   pure
+//@ functype context.Context.Deadline
+//@   pure
+
+// --- comparisons: time< is "b after a", time> is "a after b", time= is Equal
+
+//@ func BuiltinTimeLT
+//@   uses singletons
+//@   requires envOK(env) && args2(args)
+//@   ensures  [lt-is-b-after-a] old(isTime(args.Cells[0])) && old(typeis(args.Cells[1].Native, time.Time)) ==> result == ite(ext("time.Time.After", 0, old(args.Cells[1].Native.(time.Time)), old(args.Cells[0].Native.(time.Time))), lisp.singletonTrue, lisp.singletonFalse)
+//@   ensures  [rejects-non-time] !(old(isTime(args.Cells[0])) && old(typeis(args.Cells[1].Native, time.Time))) ==> isErr(result)
+//@   property C15
+
+//@ func BuiltinTimeGT
+//@   uses singletons
+//@   requires envOK(env) && args2(args)
+//@   ensures  [gt-is-a-after-b] old(isTime(args.Cells[0])) && old(typeis(args.Cells[1].Native, time.Time)) ==> result == ite(ext("time.Time.After", 0, old(args.Cells[0].Native.(time.Time)), old(args.Cells[1].Native.(time.Time))), lisp.singletonTrue, lisp.singletonFalse)
+//@   ensures  [rejects-non-time] !(old(isTime(args.Cells[0])) && old(typeis(args.Cells[1].Native, time.Time))) ==> isErr(result)
+//@   property C15
+
+//@ func BuiltinTimeEq
+//@   uses singletons
+//@   requires envOK(env) && args2(args)
+//@   ensures  [eq-is-equal] old(isTime(args.Cells[0])) && old(typeis(args.Cells[1].Native, time.Time)) ==> result == ite(ext("time.Time.Equal", 0, old(args.Cells[0].Native.(time.Time)), old(args.Cells[1].Native.(time.Time))), lisp.singletonTrue, lisp.singletonFalse)
+//@   ensures  [rejects-non-time] !(old(isTime(args.Cells[0])) && old(typeis(args.Cells[1].Native, time.Time))) ==> isErr(result)
+//@   property C15
+
+// --- arithmetic
+
+//@ func BuiltinTimeAdd
+//@   requires envOK(env) && args2(args)
+//@   ensures  [adds] old(isTime(args.Cells[0])) && old(isDur(args.Cells[1])) ==> result != nil && isTime(result) && result.Native.(time.Time) == ext("time.Time.Add", 0, old(args.Cells[0].Native.(time.Time)), old(args.Cells[1].Native.(time.Duration)))
+//@   ensures  [rejects] !(old(isTime(args.Cells[0])) && old(isDur(args.Cells[1]))) ==> isErr(result)
+//@   property C15
+
+//@ func BuiltinDurationBetween
+//@   requires envOK(env) && args2(args)
+//@   ensures  [end-minus-start] old(isTime(args.Cells[0])) && old(isTime(args.Cells[1])) ==> result != nil && isDur(result) && result.Native.(time.Duration) == ext("time.Time.Sub", 0, old(args.Cells[1].Native.(time.Time)), old(args.Cells[0].Native.(time.Time)))
+//@   ensures  [rejects] !(old(isTime(args.Cells[0])) && old(isTime(args.Cells[1]))) ==> isErr(result)
+//@   property C15
+
+// --- parse / format: the same layout constant on both sides of each pair
+
+//@ func BuiltinParseRFC3339
+//@   requires envOK(env) && args1(args)
+//@   ensures  [parses-rfc3339] old(args.Cells[0].Type) == lisp.LString && ext("time.Parse", 1, time.RFC3339, old(args.Cells[0].Str)) == nil ==> result != nil && isTime(result) && result.Native.(time.Time) == ext("time.Parse", 0, time.RFC3339, old(args.Cells[0].Str))
+//@   ensures  [rejects-malformed] old(args.Cells[0].Type) != lisp.LString || ext("time.Parse", 1, time.RFC3339, old(args.Cells[0].Str)) != nil ==> isErr(result)
+//@   property C15
+
+//@ func BuiltinParseRFC3339Nano
+//@   requires envOK(env) && args1(args)
+//@   ensures  [parses-rfc3339nano] old(args.Cells[0].Type) == lisp.LString && ext("time.Parse", 1, time.RFC3339Nano, old(args.Cells[0].Str)) == nil ==> result != nil && isTime(result) && result.Native.(time.Time) == ext("time.Parse", 0, time.RFC3339Nano, old(args.Cells[0].Str))
+//@   ensures  [rejects-malformed] old(args.Cells[0].Type) != lisp.LString || ext("time.Parse", 1, time.RFC3339Nano, old(args.Cells[0].Str)) != nil ==> isErr(result)
+//@   property C15
+
+//@ func BuiltinFormatRFC3339
+//@   requires envOK(env) && args1(args)
+//@   ensures  [formats-rfc3339] old(isTime(args.Cells[0])) ==> result != nil && result.Type == lisp.LString && result.Str == ext("time.Time.Format", 0, old(args.Cells[0].Native.(time.Time)), time.RFC3339)
+//@   ensures  [rejects] !old(isTime(args.Cells[0])) ==> isErr(result)
+//@   property C15
+
+//@ func BuiltinFormatRFC3339Nano
+//@   requires envOK(env) && args1(args)
+//@   ensures  [formats-rfc3339nano] old(isTime(args.Cells[0])) ==> result != nil && result.Type == lisp.LString && result.Str == ext("time.Time.Format", 0, old(args.Cells[0].Native.(time.Time)), time.RFC3339Nano)
+//@   ensures  [rejects] !old(isTime(args.Cells[0])) ==> isErr(result)
+//@   property C15
+
+//@ func BuiltinParseDuration
+//@   requires envOK(env) && args1(args)
+//@   ensures  [parses] old(args.Cells[0].Type) == lisp.LString && ext("time.ParseDuration", 1, old(args.Cells[0].Str)) == nil ==> result != nil && isDur(result) && result.Native.(time.Duration) == ext("time.ParseDuration", 0, old(args.Cells[0].Str))
+//@   ensures  [rejects] old(args.Cells[0].Type) != lisp.LString || ext("time.ParseDuration", 1, old(args.Cells[0].Str)) != nil ==> isErr(result)
+//@   property C15
+
+// --- duration projections: exact on the nanosecond count
+
+//@ func BuiltinDurationNS
+//@   requires envOK(env) && args1(args)
+//@   ensures  [exact-ns] old(isDur(args.Cells[0])) ==> result != nil && result.Type == lisp.LInt && result.Int == old(args.Cells[0].Native.(time.Duration))
+//@   ensures  [rejects] !old(isDur(args.Cells[0])) ==> isErr(result)
+//@   property C15
+
+//@ func BuiltinDurationSeconds
+//@   requires envOK(env) && args1(args)
+//@   ensures  [ns-over-1e9] old(isDur(args.Cells[0])) ==> result != nil && result.Type == lisp.LFloat && same(result.Float, float64(old(args.Cells[0].Native.(time.Duration))) / float64(1000000000))
+//@   ensures  [rejects] !old(isDur(args.Cells[0])) ==> isErr(result)
+//@   property C15
+
+//@ func BuiltinDurationMS
+//@   requires envOK(env) && args1(args)
+//@   ensures  [ns-over-1e6] old(isDur(args.Cells[0])) ==> result != nil && result.Type == lisp.LFloat && same(result.Float, float64(old(args.Cells[0].Native.(time.Duration))) / float64(1000000))
+//@   ensures  [rejects] !old(isDur(args.Cells[0])) ==> isErr(result)
+//@   property C15
+
+// --- sleep caps (lattice: default, :max, host ceiling)
+
+//@ pred ceil(env) = ite(env.Runtime.MaxSleep <= 0, 0, env.Runtime.MaxSleep)
+
+//@ func sleepCap
+//@   requires envOK(env) && lmax != nil
+//@   ensures  [default-cap] old(lmax.IsNil()) ==> result1 == nil && result0 == ite(old(ceil(env)) > 0 && old(ceil(env)) < lisp.DefaultMaxSleep, old(ceil(env)), lisp.DefaultMaxSleep)
+//@   ensures  [explicit-max-accepted] !old(lmax.IsNil()) && old(isDur(lmax)) && old(lmax.Native.(time.Duration)) > 0 && !(old(ceil(env)) > 0 && old(lmax.Native.(time.Duration)) > old(ceil(env))) ==> result1 == nil && result0 == old(lmax.Native.(time.Duration))
+//@   ensures  [bad-max-rejected] !old(lmax.IsNil()) && !(old(isDur(lmax)) && old(lmax.Native.(time.Duration)) > 0 && !(old(ceil(env)) > 0 && old(lmax.Native.(time.Duration)) > old(ceil(env)))) ==> isErr(result1)
+//@   ensures  [over-ceiling-condition] !old(lmax.IsNil()) && old(isDur(lmax)) && old(lmax.Native.(time.Duration)) > 0 && old(ceil(env)) > 0 && old(lmax.Native.(time.Duration)) > old(ceil(env)) ==> result1.Str == lisp.CondSleepLimitExceeded
+//@   ensures  [containment] result1 == nil ==> result0 > 0 && (old(ceil(env)) > 0 ==> result0 <= old(ceil(env)))
+//@   modifies nothing
+//@   property C15 C04
+
+//@ func BuiltinSleep
+//@   uses singletons
+//@   requires envOK(env) && args != nil && forall(j, 0, len(args.Cells), args.Cells[j] != nil)
+//@   assert-at sleepContext [within-cap] ret("sleepCap", 1) == nil && !(ret("sleepCap", 0) > 0 && arg1 > ret("sleepCap", 0))
+//@   assert-at sleepContext [sleeps-requested-duration] len(args.Cells) > 0 && isDur(args.Cells[0]) && arg1 == args.Cells[0].Native.(time.Duration)
+//@   assert-at sleepCap [cap-from-max-arg] arg1 == ite(len(args.Cells) > 1, args.Cells[1], lisp.singletonNil)
+//@   property C15 C04
+
+//@ func sleepContext
+//@   requires envOK(env)
+//@   ghost    blocked : int
+//@   counts   blocked time.Sleep
+//@   counts   blocked time.NewTimer
+//@   assert-at time.Sleep [exact-duration] arg0 == d
+//@   assert-at time.NewTimer [exact-duration] arg0 == d
+//@   assert-at time.Sleep [only-without-deadline-or-done] ret("Done", 0) == nil && !ret("Deadline", 1)
+//@   assert-at time.NewTimer [not-already-cancelled] ret("Err", 0) == nil
+//@   assert-at time.NewTimer [deadline-not-nearer-than-d] ret("Deadline", 1) ==> !(ret("Until", 0) < d)
+//@   assert-at time.Until [measures-context-deadline] arg0 == ret("Deadline", 0)
+//@   ensures  [nonpositive-returns-at-once] d <= 0 ==> blocked == old(blocked)
+//@   ensures  [blocks-at-most-once] blocked <= old(blocked) + 1
+//@   property C15 C04
